@@ -11,7 +11,7 @@ use tokio::{fs::File, io::AsyncReadExt};
 pub(super) async fn read_cert(path: &Path) -> anyhow::Result<CertificateDer<'static>> {
     match read_one_async(path).await? {
         Item::X509Certificate(cert) => Ok(cert),
-        item => anyhow::bail!("expected X.509 certificate, got {item:?}"),
+        item => anyhow::bail!("expected X.509 certificate, got {}", kind(&item)),
     }
 }
 
@@ -20,7 +20,20 @@ pub(super) async fn read_private_key(path: &Path) -> anyhow::Result<PrivateKeyDe
         Item::Pkcs1Key(key) => Ok(key.into()),
         Item::Pkcs8Key(key) => Ok(key.into()),
         Item::Sec1Key(key) => Ok(key.into()),
-        item => anyhow::bail!("expected private key, got {item:?}"),
+        item => anyhow::bail!("expected private key, got {}", kind(&item)),
+    }
+}
+
+// names the kind of a PEM item without quoting its contents: in a damaged key file (an END line
+// lost, another section following) the bytes of the key end up in an item of another kind, and
+// this text ends up in the log
+fn kind(item: &Item) -> &'static str {
+    match item {
+        Item::X509Certificate(_) => "X.509 certificate",
+        Item::Pkcs1Key(_) | Item::Pkcs8Key(_) | Item::Sec1Key(_) => "private key",
+        Item::Crl(_) => "certificate revocation list",
+        Item::Csr(_) => "certificate signing request",
+        _ => "unsupported PEM section",
     }
 }
 
